@@ -177,6 +177,12 @@ def dnf(cond, pol):
         if conj:
             return [a + b for a in l for b in r]
         return l + r
+    if k == "mcall" and n["m"] == "any" and pol and len(n["a"]) == 1:
+        # `xs.iter().any(|x| body)` is true exactly when body is true for some x: the disjuncts of body (x is classified through
+        # the closure parameter, see `which`)
+        cl = peel(n["a"][0], NO_T)
+        if cl.get("k") == "closure":
+            return dnf(cl["body"], True)
     return [[(n, pol)]]
 
 
@@ -449,7 +455,10 @@ def run(ctx):
             ctx.ob("R19.2", site_key(fn, "match kind present: " + kd), kd in kinds, fn.where, "a true-result of kind '%s' %s" % (kd, "exists" if kd in kinds else "is MISSING"))
         # the false result: the function's own tail (after the loop) must be literally false
         tail = [l for l in leaves if const_eval(l) is False]
-        ctx.ob("R19.2", site_key(fn, "falls through to false"), len(tail) >= 1, fn.where, "%d literal false result(s)" % len(tail))
+        # (or the whole result is one boolean expression, false when none of its classified disjuncts holds)
+        as_expr = [l for l in leaves if const_eval(l) is None]
+        ctx.ob("R19.2", site_key(fn, "falls through to false"), len(tail) >= 1 or (len(as_expr) == len(leaves) and bool(leaves)), fn.where,
+               "%d literal false result(s), %d result expression(s)" % (len(tail), len(as_expr)))
         # a descriptor that does not match must not decide the result: inside the loop over the descriptors the only value that may
         # leave the function is `true` (otherwise an earlier partial-token descriptor hides a matching later one)
         nret = 0
